@@ -320,11 +320,11 @@ func (srv *server) lockDuplicatedID(c *client) (oldSession *gmqtt.Session, err e
 		if oldSession != nil {
 			var oldClient *client
 			oldClient = srv.clients[oldSession.ClientID]
-			srv.mu.Unlock()
 			if oldClient == nil {
-				srv.mu.Lock()
+				// keep srv.mu: releasing it here would let another connection with the same client id in.
 				break
 			}
+			srv.mu.Unlock()
 			// if there is a duplicated online client, close if first.
 			zaplog.Info("logging with duplicate ClientID",
 				zap.String("remote", c.rwc.RemoteAddr().String()),
